@@ -433,6 +433,8 @@ def run(ctx, rep):
     c01_fold.run(ctx, rep, g)
     c01_fold.run_partial(ctx, rep)
     c01_fold.run_order(ctx, rep)
+    from rules import c01_deadfield
+    c01_deadfield.run(ctx, rep)
     # the characters of a literal are part of what was written: nothing may trim them by content
     from rules.c09 import rule_trim
     rule_trim(ctx, rep, rid="R-C01-trim")
